@@ -29,11 +29,12 @@ What is shown
 import AdaptaVerif.Lemmas.MakeFeasibleLog
 import AdaptaVerif.Lemmas.MakeFeasibleInv
 import AdaptaVerif.Lemmas.MakeFeasibleDrop
+import AdaptaVerif.Lemmas.MakeFeasibleNoc
 namespace AdaptaVerif.Props.C07MakeFeasible
 open AdaptaVerif.Model.MakeFeasible AdaptaVerif.Model.Vpsc
 open AdaptaVerif.Model.Compound (Dim Rect CC mkFixedRel)
 open AdaptaVerif.Lemmas.MakeFeasibleLog AdaptaVerif.Lemmas.MakeFeasibleInv
-open AdaptaVerif.Lemmas.MakeFeasibleDrop
+open AdaptaVerif.Lemmas.MakeFeasibleDrop AdaptaVerif.Lemmas.MakeFeasibleNoc
 open AdaptaVerif.Spec.Vpsc (Feasible PosCycle)
 open AdaptaVerif.Lemmas.VpscFlag (toC)
 
@@ -184,6 +185,37 @@ theorem violated_unreported_iff_dropped (n : Nat) (vx vy : Array (Rat × Rat × 
     | true =>
       have := hacc t ht ha
       exact absurd (lt_of_lt_of_le hlt this) (lt_irrefl _)
+
+/-! ## (3b) the lazily generated non-overlap constraints (C08's half of makeFeasible) -/
+
+/-- **nonoverlap_phase_accepted_hold**: the non-overlap item (`MF.runNoc`: pairs sorted by live overlap, four
+    alternatives by cost, the same trial as for user constraints, pairs re-queued at the back) preserves the
+    invariant: if the loop terminates (`some`; `none` is the known livelock of a rigidly overlapping pair), then
+    every constraint kept in `valid[dim]` — user constraints AND the accepted separations `x_a + (w_a+w_b)/2 +
+    1e-9 ≤ x_b` — holds at a vector agreeing with the returned node positions; all sizes of scenes, all data. -/
+theorem nonoverlap_phase_accepted_hold (n : Nat) (vx vy : Array (Rat × Rat × Rat)) (items : List Item)
+    (half : Array (Rat × Rat)) (cc fuel : Nat) (mf' : MF) (noc' : Noc)
+    (hwf : itemsWf vx.size vy.size items = true) (hn : half.size ≤ vx.size ∧ half.size ≤ vy.size)
+    (hrun : MF.runNoc cc fuel (makeFeasible n vx vy items) (Noc.ofSizes half) = some (mf', noc'))
+    (hclean : mf'.combineFlags = #[]) (hesc : mf'.escaped = false) (hfuel : mf'.fuelOut = false) (d : Dim) :
+    ∃ g : Array Rat, (∀ i : Nat, i < n → g[i]! = mf'.nodePos d i) ∧
+      ∀ c ∈ (mf'.dim d).valid, ZERO_UPPERBOUND ≤ slackOf (mf'.dim d).vars g c := by
+  have h := makeFeasible_noc_good n vx vy items half cc fuel mf' noc' hwf hn hrun hclean hesc hfuel
+  cases d with
+  | x =>
+    obtain ⟨g, _, hg, hc⟩ := h.1.wit
+    exact ⟨g, fun i hi => by rw [hg i hi]; rfl, hc⟩
+  | y =>
+    obtain ⟨g, _, hg, hc⟩ := h.2.1.wit
+    exact ⟨g, fun i hi => by rw [hg i hi]; rfl, hc⟩
+
+/-- two coincident 10×10 nodes under makeFeasible's default borders (half sizes 6): the four alternatives cost the
+    same, the stable sort keeps `left` first, it is accepted: node 1 ends up 12 + 1e-9 to the left of node 0 -/
+theorem nonoverlap_two_coincident :
+    (MF.runNoc 0 100 (makeFeasible 2 #[(0, 1, 1), (0, 1, 1)] #[(0, 1, 1), (0, 1, 1)] [])
+        (Noc.ofSizes #[(6, 6), (6, 6)])).map (fun r => (r.1.nodePos .x 0 - r.1.nodePos .x 1, r.1.nodePos .y 0, r.1.log.size, r.2.done)) =
+      some (12 + 1 / 1000000000, 0, 1, true) := by
+  decide +kernel
 
 /-! ## (4) closed witnesses — evaluated by the kernel, replayed on the real library (`mfwit-*`) -/
 
